@@ -37,7 +37,7 @@ pub struct Queue { pub cleared: bool }
 impl Queue { pub fn clear(&mut self) { self.cleared = true; } }
 pub struct Set<T> { pub items: Vec<T> }
 impl<T: PartialEq> Set<T> {
-    pub fn insert(&mut self, t: T) -> bool { self.items.push(t); true }
+    pub fn insert(&mut self, t: T) -> bool { if self.contains(&t) { false } else { self.items.push(t); true } }
     pub fn contains(&self, t: &T) -> bool { let mut i = 0; while i < self.items.len() { if &self.items[i] == t { return true; } i += 1; } false }
 }
 #[derive(Clone, Copy, PartialEq, Debug)]
